@@ -4,30 +4,30 @@ open Lean
 namespace NQ.Drv
 open NQ.Tpl
 
-def popOfJson (j : Json) : Option POp :=
+def templatePopOfJson (j : Json) : Option POp :=
   match jField? j "i", jField? j "t", jField? j "s" with
   | some v, _, _ => (jInt? v).map .int
   | _, some v, _ => (jStr? v).map .tmpl
   | _, _, some v => (jStr? v).map .txt
   | _, _, _ => none
 
-def popToJson : POp → Json
+def templatePopToJson : POp → Json
   | .int v => Json.mkObj [("i", toJson v)]
   | .tmpl n => Json.mkObj [("t", Json.str n)]
   | .txt s => Json.mkObj [("s", Json.str s)]
 
-def pcmdOfJson (j : Json) : Option PCmd := do
+def templatePcmdOfJson (j : Json) : Option PCmd := do
   let n ← (jField? j "n").bind jStr?
   let o ← (jField? j "o").bind jArr?
-  let ops ← o.toList.mapM popOfJson
+  let ops ← o.toList.mapM templatePopOfJson
   pure ⟨n, ops⟩
 
-def pcmdToJson (c : PCmd) : Json :=
-  Json.mkObj [("n", Json.str c.name), ("o", Json.arr (c.ops.map popToJson).toArray)]
+def templatePcmdToJson (c : PCmd) : Json :=
+  Json.mkObj [("n", Json.str c.name), ("o", Json.arr (c.ops.map templatePopToJson).toArray)]
 
 def pcmdsOfJson (j : Json) : Option (List PCmd) := do
   let a ← jArr? j
-  a.toList.mapM pcmdOfJson
+  a.toList.mapM templatePcmdOfJson
 
 def bopOfJson (j : Json) : Option BOp := do
   let k ← (jField? j "k").bind jStr?
@@ -56,7 +56,7 @@ def bkToJson (b : Bk) : Json :=
 
 def subToJson : Option (List PCmd) → Json
   | none => Json.null
-  | some cs => Json.arr (cs.map pcmdToJson).toArray
+  | some cs => Json.arr (cs.map templatePcmdToJson).toArray
 
 /-- one segment: bookkeeping after every body operation, then the emitted subroutine and the
 bookkeeping after the terminator -/
